@@ -9,7 +9,7 @@ PENDING = "not claimed yet: contracts for this property are still being written 
 
 CLAIMED = {
  "C01": dict(
-   text="Deductive by reduction: equality of the delivered request/response follows from trusted library round trips plus agreement facts about this repository's code, and the agreement facts are proved for all services and all values: the Go client and Go server decide the same verb, path template and path variables (C03 lemmas restricted to the Go pair), the client sends a body exactly for the verbs the server decodes one for, every path variable the validator admits is a singular scalar whose printed form the server's converter parses back to the same value (per-kind lemmas over the converter's contract, all integer widths, bool, string), body-less verbs carry every field in the URL, and the four codec dispatch tables (client marshalRequest/unmarshalResponse, server bindDataBasedOnContentType/marshalResponse, proved as at-call obligations on the extracted constant templates) agree for the standard content types; their disagreement for application/octet-stream and parameterised types, the default-route and relative-path route disagreements and base-path variables are known findings. A bounded end-to-end family (client and server of one service compiled together and run over httptest: 7 RPCs x 3 content types x boundary values) is the replayer.",
+   text="Deductive by reduction: equality of the delivered request/response follows from trusted library round trips plus agreement facts about this repository's code, and the agreement facts are proved for all services and all values: the Go client and Go server decide the same verb, path template and path variables (C03 lemmas restricted to the Go pair), the client sends a body exactly for the verbs the server decodes one for, every path variable the validator admits is a singular scalar whose printed form the server's converter parses back to the same value (per-kind lemmas over the converter's contract, all integer widths, bool, string), body-less verbs carry every field in the URL, and the four codec dispatch tables (client marshalRequest/unmarshalResponse, server bindDataBasedOnContentType/marshalResponse, proved as at-call obligations on the extracted constant templates) agree for the standard content types; their disagreement for application/octet-stream and parameterised types, the default-route and relative-path route disagreements and base-path variables are known findings. A bounded end-to-end family (client and server of one service compiled together and run over httptest: 7 RPCs x 3 content types x boundary values) is the replayer. The emitted client method of the extraction schema is proved to send each query parameter (int32, string, bool, uint64) under its published name as the printed value of the field in its own type, and only when non-zero.",
    design="4 (C01)",
    note="Trusted: strconv (incl. floats), net/url escaping, ServeMux, protojson/proto and the custom codecs of C04-C08. Per-RPC emitted client text (URL assembly, query encoding) is verified on the extraction schema and exercised by the family only (bounded over schemas).",
    technique="contract-based deductive verification: agreement lemmas over verified contracts of the deciding generator functions and of the extracted emitted templates (event/at-call tables), z3/cvc5 race; bounded client-server end-to-end family as replayer"),
@@ -24,12 +24,12 @@ CLAIMED = {
    note="The other codecs (enum, empty_behavior, flatten, oneof, the other unwrap shapes) and messages outside the extraction schema are covered only by the family and the congruence rule. protojson is trusted.",
    technique="contract-based deductive verification of extracted emitted encoders against spec functions (event/at-call obligations) and of the encoder-choice template; bounded depth family over httptest as replayer and stand-in"),
  "C06": dict(
-   text="Partial. Deductive: the OpenAPI scalar schema table (type, format, the hex pattern, unsigned minimum), the timestamp table and the enum schema (integer enum of numbers / string enum of custom-or-proto names, one entry per value) are proved against the documented wire form for every field (at-call obligations on the schema object handed to libopenapi, conditioned on the absence of buf.validate rules, which C19 covers), path and query parameter lists are proved (C18 contracts), and lemmas show the OpenAPI, TypeScript and wire tables describe the same JSON values. Bounded: the response bodies the emitted Go server sends for the C05 family are validated with python jsonschema (2020-12) against the published component schemas (quick tier too); five known findings, all rooted in the C05 depth defect.",
+   text="Partial. Deductive: the OpenAPI scalar schema table (type, format, the hex pattern, unsigned minimum), the timestamp table and the enum schema (integer enum of numbers / string enum of custom-or-proto names, one entry per value) are proved against the documented wire form for every field (at-call obligations on the schema object handed to libopenapi, conditioned on the absence of buf.validate rules, which C19 covers), path and query parameter lists are proved (C18 contracts), and lemmas show the OpenAPI, TypeScript and wire tables describe the same JSON values. Bounded: the response bodies the emitted Go server sends for the C05 family are validated with python jsonschema (2020-12) against the published component schemas (quick tier too); five known findings, all rooted in the C05 depth defect. Container shapes are proved too: a list is an array of the element schema, a map and a root-unwrap map are objects whose additionalProperties is the value schema, and none of them carries another applicator keyword (propertyNames, allOf, not, ...) or, without a buf.validate rule, a value constraint.",
    design="4 (C06)",
    note="Not covered: object/array/map/oneOf shapes, required lists, request bodies and parameter values sent by clients, error responses, schema satisfiability.",
    technique="contract-based deductive verification of the schema-building functions (at-call obligations), agreement lemmas over specification tables; bounded validation family with an independent JSON-Schema validator as replayer"),
  "C07": dict(
-   text="Partial, type-level. Deductive: the TypeScript scalar type of every field is proved to be the documented JSON wire class (number for 32-bit integers and floats, for NUMBER-encoded 64-bit integers, for UNIX timestamps and NUMBER-encoded enums; string for default 64-bit integers, bytes, RFC 3339/DATE timestamps; boolean), list and message field types are proved compositional, and the presence marker of every declared property - `| null` iff nullable, else `?:` iff optional - is proved for plain and for flattened properties (event obligations on the printer calls). Lemmas relate the TypeScript table to the OpenAPI table. A structural rule shows both TypeScript plugins declare message and enum types through the same tscommon functions.",
+   text="Partial, type-level. Deductive: the TypeScript scalar type of every field is proved to be the documented JSON wire class (number for 32-bit integers and floats, for NUMBER-encoded 64-bit integers, for UNIX timestamps and NUMBER-encoded enums; string for default 64-bit integers, bytes, RFC 3339/DATE timestamps; boolean), list and message field types are proved compositional, and the presence marker of every declared property - `| null` iff nullable, else `?:` iff optional - is proved for plain and for flattened properties (event obligations on the printer calls). Lemmas relate the TypeScript table to the OpenAPI table. A structural rule shows both TypeScript plugins declare message and enum types through the same tscommon functions. The collector of declarations is proved to register every type name a declaration can mention: the message itself and, on first visit, the enum and message types of all its fields, map values included.",
    design="4 (C07)",
    note="No TypeScript checker is installed: declarations are read as the format strings the generator prints. Interfaces, unions, Record<> shapes and the TS server's handler argument are not covered; nested annotated values deviate on the wire (C05 findings).",
    technique="contract-based deductive verification of the TypeScript type-table and declaration-printing functions (functional contracts, at-call obligations), agreement lemmas, structural sharing rule"),
@@ -44,7 +44,7 @@ CLAIMED = {
    note="Not checked: conformance of the mock answer to the published OpenAPI schema (C06 is not decidable here). Trusted: strconv, math/rand range, protojson.",
    technique="contract-based deductive verification of the extracted emitted selector templates + termination contracts; bounded build/vet and runtime families as replayer and stand-in"),
  "C16": dict(
-   text="Deductive where a contract can state it: every function on a static call cycle of the generator packages (41 today) carries a `decreases` measure whose VC is discharged at every recursive call (nesting depth of descriptors, or the number of full names not yet in a visited/on-stack set, with the set-growth invariants proved through the loops); a structural rule refuses any recursive function without a measure and any loop that is not a range over a finite collection or a simple counting loop; a zero-annotation bounds sweep proves every index, slice, type-assertion and explicit-panic site of all 550 functions of the generator packages and the five plugin mains unreachable-or-in-range for all arguments. Two genuine defects found this way were repaired with fix: commits (unbounded mock recursion on self-containing response types, panic-on-error in the OpenAPI main). Crash-freedom of whole plugin runs is additionally sampled by a bounded family (descriptor shapes x plugins x parameters, thorough tier) that also serves as the replayer.",
+   text="Deductive where a contract can state it: every function on a static call cycle of the generator packages (41 today) carries a `decreases` measure whose VC is discharged at every recursive call (nesting depth of descriptors, or the number of full names not yet in a visited/on-stack set, with the set-growth invariants proved through the loops); a structural rule refuses any recursive function without a measure and any loop that is not a range over a finite collection or a simple counting loop; a zero-annotation bounds sweep proves every index, slice, type-assertion and explicit-panic site of all 550 functions of the generator packages and the five plugin mains unreachable-or-in-range for all arguments. Two genuine defects found this way were repaired with fix: commits (unbounded mock recursion on self-containing response types, panic-on-error in the OpenAPI main). Crash-freedom of whole plugin runs is additionally sampled by a bounded family (descriptor shapes x plugins x parameters, thorough tier) that also serves as the replayer. The sweep also proves that a pointer which the code itself may have set to nil (a callee's `return nil`) is not nil where it is dereferenced.",
    design="4 (C16)",
    note="Trusted: termination and panic-freedom of protogen/protobuf-go/libopenapi/yaml/fmt; the finite universe of full names (measure axioms in spec/trusted/descriptors.spec); protogen hands out non-nil descriptors (nil dereferences are outside the sweep). Static call graph only. 'Bounded time' is established as termination, not as a time bound; memory only through the family's cap (bounded).",
    technique="contract-based deductive verification: termination measures (decreases) with loop invariants, zero-annotation bounds/no-panic VCs for every generator function, structural recursion/loop inventory; bounded plugin-run family as replayer"),
@@ -64,17 +64,17 @@ CLAIMED = {
    note="Trusted spec transcriptions: buf.validate rule semantics, JSON-Schema 2020-12 keyword subset, renderings of numbers by strconv/fmt denote the printed value, float64(int64) exact up to 2^53. Not attempted: regex equivalence of pattern; excluded ranges (lt < gt).",
    technique="contract-based deductive verification: functional contracts on the translators, universally quantified rule/schema equivalence lemmas, z3/cvc5 race; differential family replay with python jsonschema"),
  "C02": dict(
-   text="Deductive, on the constant request-pipeline template extracted from the working-tree plugin on every run (template constancy is proved structurally, so the extracted instance is every instance): event obligations on the BindingMiddleware closure (exactly one of dispatch/error per request; URL binders run after body decoding so URL values survive the body; dispatch only when every binder and validation returned nil), the per-kind contract of convertStringToFieldValue, content-type dispatch of the body binder. The body-wipes-URL-fields defect found by the check was repaired (fix: commit) after an httptest replay on the emitted server.",
+   text="Deductive, on the constant request-pipeline template extracted from the working-tree plugin on every run (template constancy is proved structurally, so the extracted instance is every instance): event obligations on the BindingMiddleware closure (exactly one of dispatch/error per request; URL binders run after body decoding so URL values survive the body; dispatch only when every binder and validation returned nil), the per-kind contract of convertStringToFieldValue, content-type dispatch of the body binder. The body-wipes-URL-fields defect found by the check was repaired (fix: commit) after an httptest replay on the emitted server. The query binder is proved to reject a request in which a required query parameter is absent, whatever the URL looks like.",
    design="4 (C02), 3",
    note="Trusted: protojson/proto Unmarshal reset the message first; net/http PathValue/Query, strconv and protoreflect are observers. Not proved: the per-field equality 'message field == converted URL value' inside bindPathParams/bindQueryParams (needs a model of protoreflect.Message.Set); TypeScript server half.",
    technique="contract-based deductive verification of extracted emitted Go: event/at-call obligations and functional contracts, z3/cvc5 race; structural template-constancy rule"),
  "C10": dict(
-   text="Deductive decision-table contracts on the emitted error path (writeErrorWithHandler hook table per the documented ErrorHandler contract, defaultErrorResponse, defaultErrorStatusCode, genericHandler adapter, response writers' codec/Content-Type table) and on the emitted client's error mapping and codec helpers, plus http.Error.Error(); all extracted fresh from the working tree.",
+   text="Deductive decision-table contracts on the emitted error path (writeErrorWithHandler hook table per the documented ErrorHandler contract, defaultErrorResponse, defaultErrorStatusCode, genericHandler adapter, response writers' codec/Content-Type table) and on the emitted client's error mapping and codec helpers, plus http.Error.Error(); all extracted fresh from the working tree. Header violations are proved to carry the declared header name.",
    design="4 (C10)",
    note="Trusted: errors.As (direct-hit axiom only), net/http ResponseWriter protocol, protojson/proto. Not covered: dotted field paths of convertProtovalidateError beyond panic-freedom, TS clients.",
    technique="contract-based deductive verification of extracted emitted Go (event/at-call obligations), z3/cvc5 race"),
  "C11": dict(
-   text="Deductive: panic-freedom obligations (index, slice, nil dereference, type assertion, nil-map write) on the emitted server templates and the emitted client methods of the extraction schema, decode-or-400 obligations (a request is dispatched only if a decoder accepted the whole body; decoder errors reach the error path), and the generator-side lemma that path variables are singular scalars (which makes the reflective Set safe).",
+   text="Deductive: panic-freedom obligations (index, slice, nil dereference, type assertion, nil-map write) on the emitted server templates and the emitted client methods of the extraction schema, decode-or-400 obligations (a request is dispatched only if a decoder accepted the whole body; decoder errors reach the error path), and the generator-side lemma that path variables are singular scalars (which makes the reflective Set safe). The root-unwrap list decoder is proved to treat anything but one JSON array (trailing bytes included) as an error and to decode every element with the strict decoder.",
    design="4 (C11)",
    note="Trusted: net/http well-formedness of handler requests, Client.Do/NewRequest postconditions, protoreflect kind/value agreement. Not covered: hangs/5xx inside libraries, schema-dependent custom decoders, client RPC methods beyond the extraction schema (bounded).",
    technique="contract-based deductive verification of extracted emitted Go with safety VCs, z3/cvc5 race"),
@@ -84,12 +84,12 @@ CLAIMED = {
    note="Congruence is syntactic: a semantically equal but textually different rewrite of one copy is reported. protogen printing is trusted.",
    technique="structural relational proof rule (congruence of duplicated emitters) + file-set rule; family replay through the real plugins"),
  "C15": dict(
-   text="Deductive contract for CombineHeaders proved for an arbitrary map iteration order (result sorted by name, entries from the inputs, keyed by non-empty names), plus structural rules: the only range-over-map loops in the generators are the contracted ones, no generator or plugin main reads clock/randomness/environment/files or writes package-level state or starts goroutines, and generator objects keep no cross-file state.",
+   text="Deductive contract for CombineHeaders proved for an arbitrary map iteration order (result sorted by name, entries from the inputs, keyed by non-empty names), plus structural rules: the only range-over-map loops in the generators are the contracted ones, no generator or plugin main reads clock/randomness/environment/files or writes package-level state or starts goroutines, and generator objects keep no cross-file state. Every constructor of the per-service OpenAPI generator takes values only, so the documents of one invocation share no mutable object (structural rule).",
    design="4 (C15)",
    note="Trusted: protogen/yaml/libopenapi emit in insertion order. tscommon OrderedEnums is inventoried by the map-range rule but its sortedness contract is not written yet.",
    technique="contract-based deductive verification (map-range for arbitrary order) + structural purity rules"),
  "C17": dict(
-   text="Ownership discipline, proved structurally on the extracted emitted server and client: package-level state is written only inside sync.Once.Do and read after it; client methods assign no client field and never let the shared defaultHeaders map escape; per-route configuration is passed by value (event obligations on the emitted Register function: each route receives its own method headers, parameter tables, verb and pattern).",
+   text="Ownership discipline, proved structurally on the extracted emitted server and client: package-level state is written only inside sync.Once.Do and read after it; client methods assign no client field and never let the shared defaultHeaders map escape; per-route configuration is passed by value (event obligations on the emitted Register function: each route receives its own method headers, parameter tables, verb and pattern). Every request is proved to be bound, validated and dispatched in a message allocated while serving that request (no pooling or sharing between requests).",
    design="4 (C17)",
    note="No schedule is explored. Trusted: Go memory model, documented thread-safety of http.Client, ServeMux, sync.Once, validator. Registration is checked on the extraction schema (bounded over schemas).",
    technique="ownership/frame proof rules on extracted emitted Go + event obligations, z3/cvc5 race"),
@@ -99,7 +99,7 @@ CLAIMED = {
    note="Trusted: govc, solvers, protobuf-go observers and descriptor well-formedness axioms (spec/trusted/descriptors.spec). Assumed contract: ValidateFlattenCollisions (iff to an opaque predicate). The two undocumented 'only one MarshalJSON feature' refusals are outside the proved converse. Acceptance of valid definitions by ts-client/ts-server/openapiv3 is only covered by the bounded family (thorough tier). protogen emits no files when the plugin returns an error (trusted).",
    technique="contract-based deductive verification: iff contracts per validator, recursive wiring contracts with loop invariants and decreases clauses, lemmas over contracts, z3/cvc5 race"),
  "C03": dict(
-   text="Deductive: the route-deciding functions of all five generators are verified against contracts (VCs from their source, SMT-discharged), and the pairwise agreement of verb, path template, path variables and body/query placement is proved as lemmas over those contracts for a symbolic service/method; disagreement classes that exist today are split off as known findings and replayed against the real plugins.",
+   text="Deductive: the route-deciding functions of all five generators are verified against contracts (VCs from their source, SMT-discharged), and the pairwise agreement of verb, path template, path variables and body/query placement is proved as lemmas over those contracts for a symbolic service/method; disagreement classes that exist today are split off as known findings and replayed against the real plugins. The OpenAPI generator is proved to publish, for every RPC and every verb, exactly the query parameter list that the clients send (contract on processMethod, lemma C03.query.openapi).",
    design="4 (C03), 2.9",
    note="Trusted: govc, SMT solvers, protobuf-go observers (Options/GetExtension purity and dynamic types), string library models, assumed contracts ExtractPathParams (regexp) and camelToSnake (rune loop). Not proved here: that every emitter prints exactly the decided value (dataflow decision->gf.P), ServeMux/TypeScript/YAML syntax.",
    technique="contract-based deductive verification: weakest-precondition style VCs over go/ast+go/types against //@ contracts, lemmas over contracts, z3/cvc5 race"),
